@@ -46,7 +46,8 @@ Violations(line) ==
      \* C05: the validator is consulted with the complete chain, with a signing time only for signing-authority
      \* signatures, through the interface the caller supplied
   \cup R("revshape", Has(in, "revvec") /\ o.revCalled /\
-                        (o.revChainLen # Len(in.revvec.vec) \/ o.revZeroTime # (in.revvec.scheme = "x509") \/ o.revIface # in.revvec.iface))
+                        (o.revChainLen # Len(in.revvec.vec) \/ o.revZeroTime # (in.revvec.scheme = "x509") \/ o.revIface # in.revvec.iface
+                         \/ o.revTimeWrong))       \* ... and that signing time is the instant the signature states (whatever the time zone)
      \* C06: the time-stamping authority's chain is checked for revocation as of the moment of verification (no signing time)
   \cup R("tsarevshape", o.tsaRevCalled /\ ~o.tsaRevZeroTime)
      \* C05: class of the reported revocation result and the certificate it names
